@@ -58,8 +58,14 @@ def cases(chk):
             yield "ref-decodes-lib", {"tree": to_json(t)}
             yield "lib-decodes-ref", {"tree": to_json(t), "seed": r.randrange(1 << 30), "deflate": 0}
     # compressed frames (zlib flag) around every size boundary: a limit in the inflate path shows only for large inflated bodies
-    for nb in sorted(set([255, 256, 4095, 4096, 65535, 65536, 65537, 70000, (1 << 17) + 1] + ([] if chk.quick() else [(1 << 20) - 1, 1 << 20, (1 << 20) + 1]))):
-        yield "lib-decodes-ref", {"tree": to_json(("m", [("id", "z%d" % nb)], bytes([nb % 251]) * nb, [])), "seed": nb, "deflate": 1}
+    # (round 33: a cap on the INFLATED size — a "decompression bomb guard" that cuts the body short instead of refusing it — shows only for bodies that
+    # inflate beyond it: 1 MiB + 1 and 3 MiB also on the quick tier, and every integer literal of the current coder sources +-1 and +64 up to 12 MiB;
+    # bodies above 1.5 MiB go to the real decoder only, not through the model driver's hex line)
+    zl = sorted(set(v + d for v in chk.lits for d in (-1, 0, 1, 64) if (1 << 17) < v + d <= (12 << 20)))
+    for nb in sorted(set([255, 256, 4095, 4096, 65535, 65536, 65537, 70000, (1 << 17) + 1, (1 << 20) + 1, 3 << 20] + zl[:12] + ([] if chk.quick() else [(1 << 20) - 1, 1 << 20, 5 << 20, (8 << 20) + 3]))):
+        yield "lib-decodes-ref", dict({"tree": to_json(("m", [("id", "z%d" % nb)], bytes([nb % 251]) * nb, [])), "seed": nb, "deflate": 1}, **({"nomodel": 1} if nb > (3 << 19) else {}))
+        if nb > (1 << 20):
+            continue
         yield "lib-decodes-ref", {"tree": to_json(("m", [("id", "k%d" % nb)], None, [("c", [("i", str(i))], bytes([i % 251 + 1]) * (nb // 40 + 1), []) for i in range(40)])),
                                   "seed": nb + 1, "deflate": 1}
     # strings around the JID separator: empty user, empty server, several separators — as attribute value, attribute key, tag and string content
@@ -171,12 +177,14 @@ def run_case(chk, stream, case):
         for h in set(hits):
             chk.hit("ref-choice:" + h)
         ik, iv = c01.impl_decode(chk, frame)
-        if case["deflate"]:
+        if case.get("nomodel"):
+            out = None
+        elif case["deflate"]:
             out = chk.driver.ask("coder decz %s %s" % (hx(frame), hx(zlib.decompress(frame[1:]))))
         else:
             out = chk.driver.ask("coder dec %s" % hx(frame))
-        mk, mv = ("ok", out[3:]) if out.startswith("ok ") else ("err", out)
-        if ik != mk or (ik == "ok" and to_line(iv) != mv):
+        mk, mv = (ik, to_line(iv) if ik == "ok" else "") if out is None else ("ok", out[3:]) if out.startswith("ok ") else ("err", out)
+        if out is not None and (ik != mk or (ik == "ok" and to_line(iv) != mv)):
             fails.append(corr("lib-decodes-ref:decode", "frame %s of %s: impl=%s %s model=%s %s"
                               % (frame[:40].hex(), to_line(t)[:100], ik, str(iv)[:100], mk, mv[:100])))
         bad = None
